@@ -1,4 +1,5 @@
 import PyodaProofs.Basic
 import PyodaProofs.C03
 import PyodaProofs.C04
+import PyodaProofs.C04Spec
 import PyodaProofs.C05
